@@ -22,7 +22,7 @@ RULE = ("programs = the C03 population (seeded G-schema sets incl. services of e
         "succeeds, every package imports, same class set, per class same field numbers / proto types / groups / map types / "
         "wraps / resolved types (Optional stripped) / enum values, same service routes and cardinalities; then seeded value "
         "trees are instantiated in every variant and bytes() and to_json() compared with the default variant. "
-        "disagreements_checked = structural + behavioural comparisons.")
+        "The decode direction is compared too: parse(default variant's bytes) and from_json(default variant's JSON) must re-encode / print the same in every variant. Empty messages are passed freshly constructed as well as received. disagreements_checked = structural + behavioural comparisons.")
 ASSUMPTIONS = [
     "FieldMetadata.optional and the Optional[...] wrapper of pydantic oneof members differ by design and are not compared",
     "a value the pydantic validators reject is recorded per field kind and judged only when the same value is accepted by the standard variant "
